@@ -6,9 +6,17 @@ Readings fixed in the design note (so that the oracle does not demand more than 
    SVs, tempo points, and for StepMania also stops);
  * among SVs sharing one time, the last in list order is the active one; an SV that shares its time with a tempo
    point is active from that time on (the tempo point is not "the next" one).
-Input lists are SORTED by time (row-order dependence belongs to another property).  Where the statement is silent
-(the speed before the first tempo point; whether sv_normalize may touch its argument) nothing is asserted; the
-latter is counted as an observation, see ASSERT_INPUT_UNCHANGED."""
+The statement speaks about charts, not about how their lists were put together, so the generator varies everything a
+chart's DataFrame-backed lists can differ in without being a different chart: row order (time order, shuffled,
+reversed), row labels (default, permuted by .sorted() / append(sort=True), offset / gappy after a filter, reversed,
+duplicated, negative), column types (float, int, numpy scalars, object columns after append), the time scale (negative,
+very large, sub-millisecond, several times inside one millisecond), zero-length holds, far-away tempi and overrides,
+every way of passing the override, the order and repetition of the three calls.  The oracle always works on the rows
+READ BACK from the built chart in row order (so "last in list order" is the row order the functions see).  A second check
+runs HISTORIES: two charts alive at once, judged alternately, with changing overrides, after re-sorting a list and after
+appending the normalising SVs to the chart.  Where the statement is silent (the speed before the first tempo point;
+whether sv_normalize may touch its argument) nothing is asserted; the latter is counted as an observation, see
+ASSERT_INPUT_UNCHANGED."""
 from __future__ import annotations
 
 from collections import Counter, defaultdict
@@ -23,11 +31,24 @@ from pyvc.bounded import replayer
 ASSERT_INPUT_UNCHANGED = False
 
 TIME_GRID = [0.0, 100.0, 200.0, 300.0, 400.0, 600.0, 800.0, 1000.25]      # dyadic: float sums of differences are exact
+# alternative time scales (all dyadic, so that ties in total active time stay exact in floating point)
+GRIDS = {
+    "base": TIME_GRID,
+    "negative": [t - 450.0 for t in TIME_GRID],                            # objects and tempo points before 0 ms
+    "large": [t + 3600000.0 for t in TIME_GRID],                           # an hour into the file
+    "fraction": [0.5, 100.5, 200.25, 300.9990234375, 400.125, 600.0625, 800.5, 1000.25],   # x.5 / x.999 / sub-ms digits
+    "tight": [0.0, 0.25, 0.5, 1.0, 1.5, 2.0, 3.0, 4.75],                   # several times inside one millisecond
+}
 BPMS = [60.0, 100.0, 120.0, 177.5, 240.0]
+BPMS_FAR = [7.5, 1920.0]                                                   # more than 10x away from the others
 MULTS = [0.5, 0.75, 1.0, 1.25, 2.0]
 OVERRIDES = [None, 100, 177.5]
+OVERRIDES_MORE = [1, 0.75, 60.0, 1000]
+HOLD_LENGTHS = [50.0, 2000.0]
 SV_GAMES = ["osu", "qua"]
 OTHER_GAMES = ["sm", "bms", "o2j", "base"]
+KINDS = ["bpms", "svs", "hits", "holds"]
+JUNK_T = -99999.0                                                          # rows that a filter removes again
 REL = 1e-9
 
 
@@ -51,22 +72,87 @@ def _game(game):
     return M, {}
 
 
+def _mk_list(cls, rows, mk, lay):
+    """One list of the chart from its rows (in construction order) through PUBLIC list operations only.
+    lay = {"via": ...}: ctor | sorted | sorted_reverse | append_sorted | append_list | filter | labels."""
+    import numpy as np
+
+    lay = lay or {}
+    via = lay.get("via", "ctor")
+    items = [mk(r) for r in rows]
+    if via == "ctor" or not items:
+        return cls(items)
+    if via == "sorted":
+        return cls(items).sorted()
+    if via == "sorted_reverse":
+        return cls(items).sorted(reverse=True)
+    if via == "append_sorted":                                  # the last row is appended to a list of the others
+        return cls(items[:-1]).append(items[-1], sort=True)
+    if via == "append_list":                                    # two lists joined
+        k = lay["split"]
+        return cls(items[:k]).append(cls(items[k:]), sort=bool(lay.get("sort")))
+    if via == "filter":                                         # junk rows interleaved, then removed by a mask / after()
+        junk = set(lay["junk_at"])
+        full, keep, it = [], [], iter(items)
+        for p in range(len(items) + len(junk)):
+            if p in junk:
+                jr = list(rows[0])
+                jr[0] = type(rows[0][0])(JUNK_T)
+                full.append(mk(jr))
+                keep.append(False)
+            else:
+                full.append(next(it))
+                keep.append(True)
+        lst = cls(full)
+        return lst.after(JUNK_T) if lay.get("by") == "after" else lst[np.array(keep)]
+    if via == "labels":                                         # a list made from a DataFrame that carries these row labels
+        return cls(cls(items).df.set_axis(lay["labels"]))
+    raise ValueError(via)
+
+
 def _build(case):
     M, kw = _game(case["game"])
     m = M()
+    if case.get("np_scalars"):
+        import numpy as np
+
+        def num(x):
+            return np.int64(x) if isinstance(x, int) else np.float64(x)
+    else:
+        def num(x):
+            return x
+    lay = case.get("layout") or {}
     H, L, B = type(m.hits)._item_class(), type(m.holds)._item_class(), type(m.bpms)._item_class()
-    m.hits = type(m.hits)([H(offset=t, column=c, **kw) for t, c in case["hits"]])
-    m.holds = type(m.holds)([L(offset=t, column=c, length=ln, **kw) for t, c, ln in case["holds"]])
-    m.bpms = type(m.bpms)([B(offset=t, bpm=b) for t, b in case["bpms"]])
+    m.hits = _mk_list(type(m.hits), case["hits"], lambda r: H(offset=num(r[0]), column=r[1], **kw), lay.get("hits"))
+    m.holds = _mk_list(type(m.holds), case["holds"], lambda r: L(offset=num(r[0]), column=r[1], length=num(r[2]), **kw), lay.get("holds"))
+    m.bpms = _mk_list(type(m.bpms), case["bpms"], lambda r: B(offset=num(r[0]), bpm=num(r[1])), lay.get("bpms"))
     if case["game"] in SV_GAMES:
         S = type(m.svs)._item_class()
-        m.svs = type(m.svs)([S(offset=t, multiplier=x) for t, x in case["svs"]])
+        m.svs = _mk_list(type(m.svs), case["svs"], lambda r: S(offset=num(r[0]), multiplier=num(r[1])), lay.get("svs"))
     if case["game"] == "sm" and case.get("stops"):
         from reamber.sm import SMStop
         from reamber.sm.lists import SMStopList
 
         m.stops = SMStopList([SMStop(offset=t, length=ln) for t, ln in case["stops"]])
     return m
+
+
+def _effective(m, case, sanity=True):
+    """The chart as the functions see it: every list's rows read back in ROW order."""
+    eff = dict(case)
+    eff["bpms"] = [[t, b] for t, b in zip(m.bpms.offset.tolist(), m.bpms.bpm.tolist())]
+    eff["hits"] = [[t, c] for t, c in zip(m.hits.offset.tolist(), m.hits.column.tolist())]
+    eff["holds"] = [[t, c, ln] for t, c, ln in zip(m.holds.offset.tolist(), m.holds.column.tolist(), m.holds.length.tolist())]
+    eff["svs"] = [[t, x] for t, x in zip(m.svs.offset.tolist(), m.svs.multiplier.tolist())] if case["game"] in SV_GAMES else []
+    if case["game"] == "sm":
+        eff["stops"] = [[t, ln] for t, ln in zip(m.stops.offset.tolist(), m.stops.length.tolist())]
+    if sanity:                                                   # the construction recipes only reorder / relabel rows
+        for k in KINDS + ["stops"]:
+            a = sorted([float(x) for x in r] for r in eff.get(k, []))
+            b = sorted([float(x) for x in r] for r in (case.get(k) or []))
+            if a != b:
+                raise AssertionError(f"generator: list {k} was built as {a}, the case says {b}")
+    return eff
 
 
 def _F(x):
@@ -128,60 +214,85 @@ def _freeze(m):
     return out
 
 
+def _override(case):
+    ov = case["override"]
+    if ov is not None and case.get("override_np"):
+        import numpy as np
+
+        return np.int64(ov) if isinstance(ov, int) else np.float64(ov)
+    return ov
+
+
+def _call(fn, m, case):
+    """Every way of handing over the override: positionally, by keyword, or (no override) not at all."""
+    ov = _override(case)
+    how = case.get("call", "positional")
+    if how == "omitted" and ov is None:
+        return fn(m)
+    if how == "keyword":
+        return fn(m, override_bpm=ov)
+    return fn(m, ov)
+
+
 # ---------------------------------------------------------------------------------------------- one case
-def _run_case(case, observe=None):
+def _judge(m, case, observe=None, sanity=True):
+    """Run the three functions on the built chart `m` (in the order case['order']) against the statement."""
     from reamber.algorithms.utils import dominant_bpm
     from reamber.algorithms.analysis import scroll_speed
     from reamber.algorithms.generate import sv_normalize
 
     failed = []
-    m = _build(case)
+    given = case
+    case = _effective(m, given, sanity)                       # rows as the functions see them
     ov = case["override"]
     doms = _dominant_set(case)
-
-    # --- dominant bpm: a bpm value whose total active time is maximal (ties: any maximiser)
-    try:
-        d = float(dominant_bpm(m))
-        if d not in doms:
-            failed.append(("dominant_bpm_is_a_maximiser", f"got {d}; active totals {({k: float(v) for k, v in _active_totals(case).items()})}, last object at {float(_last_object(case))}"))
-    except Exception as ex:
-        failed.append(("dominant_bpm_completes", f"{type(ex).__name__}: {ex}"))
-
     refs = [Fraction(float(ov))] if ov is not None else [Fraction(b) for b in doms]
     t1 = min(_F(t) for t, _ in case["bpms"])
 
-    # --- scroll speed at every breakpoint = active bpm / reference * active SV
-    try:
-        s = scroll_speed(m, ov)
-        pts = [(Fraction(float(x)), float(v)) for x, v in zip(s.index.tolist(), s.tolist())]
-        verdicts = []
-        for ref in refs:
-            bad = None
-            for x, v in pts:
-                if x < t1:
-                    continue                                     # statement silent before the first tempo point
-                want = Fraction(_active_bpm(case, x)) / ref * _active_sv(case, x)
-                if v != v or not _close(v, want):
-                    bad = f"at {float(x)}: got {v}, want {float(want)} (bpm {_active_bpm(case, x)}, reference {float(ref)}, SV {float(_active_sv(case, x))})"
-                    break
-            verdicts.append(bad)
-        if all(b is not None for b in verdicts):
-            what = "scroll_speed_uses_override" if ov is not None and all(
-                _close(v, Fraction(_active_bpm(case, x)) / Fraction(b) * _active_sv(case, x)) for b in doms[:1] for x, v in pts if x >= t1) else "scroll_speed_at_breakpoints"
-            failed.append((what, verdicts[0]))
-        # every tempo point and every SV is a breakpoint
-        have = {x for x, _ in pts}
-        need = {_F(t) for t, _ in case["bpms"]} | ({_F(t) for t, _ in case["svs"]} if case["game"] in SV_GAMES else set())
-        if not need <= have:
-            failed.append(("breakpoints_cover_tempo_and_sv_points", f"missing {sorted(float(x) for x in need - have)} in {sorted(float(x) for x in have)}"))
-    except Exception as ex:
-        failed.append(("scroll_speed_completes", f"{type(ex).__name__}: {ex}"))
+    def dominant():
+        # --- dominant bpm: a bpm value whose total active time is maximal (ties: any maximiser)
+        try:
+            d = float(dominant_bpm(m))
+            if d not in doms:
+                failed.append(("dominant_bpm_is_a_maximiser", f"got {d}; active totals {({k: float(v) for k, v in _active_totals(case).items()})}, last object at {float(_last_object(case))}"))
+        except Exception as ex:
+            failed.append(("dominant_bpm_completes", f"{type(ex).__name__}: {ex}"))
 
-    # --- SV normalisation: one SV per tempo point, at its time, multiplier * bpm == reference
-    if case["game"] in SV_GAMES:
+    def scroll():
+        # --- scroll speed at every breakpoint = active bpm / reference * active SV
+        try:
+            s = _call(scroll_speed, m, given)
+            pts = [(Fraction(float(x)), float(v)) for x, v in zip(s.index.tolist(), s.tolist())]
+            verdicts = []
+            for ref in refs:
+                bad = None
+                for x, v in pts:
+                    if x < t1:
+                        continue                                     # statement silent before the first tempo point
+                    want = Fraction(_active_bpm(case, x)) / ref * _active_sv(case, x)
+                    if v != v or not _close(v, want):
+                        bad = f"at {float(x)}: got {v}, want {float(want)} (bpm {_active_bpm(case, x)}, reference {float(ref)}, SV {float(_active_sv(case, x))})"
+                        break
+                verdicts.append(bad)
+            if all(b is not None for b in verdicts):
+                what = "scroll_speed_uses_override" if ov is not None and all(
+                    _close(v, Fraction(_active_bpm(case, x)) / Fraction(b) * _active_sv(case, x)) for b in doms[:1] for x, v in pts if x >= t1) else "scroll_speed_at_breakpoints"
+                failed.append((what, verdicts[0]))
+            # every tempo point and every SV is a breakpoint
+            have = {x for x, _ in pts}
+            need = {_F(t) for t, _ in case["bpms"]} | ({_F(t) for t, _ in case["svs"]} if case["game"] in SV_GAMES else set())
+            if not need <= have:
+                failed.append(("breakpoints_cover_tempo_and_sv_points", f"missing {sorted(float(x) for x in need - have)} in {sorted(float(x) for x in have)}"))
+        except Exception as ex:
+            failed.append(("scroll_speed_completes", f"{type(ex).__name__}: {ex}"))
+
+    def normalize():
+        # --- SV normalisation: one SV per tempo point, at its time, multiplier * bpm == reference
+        if case["game"] not in SV_GAMES:
+            return
         before = _freeze(m)
         try:
-            r = sv_normalize(m, ov)
+            r = _call(sv_normalize, m, given)
             if type(r) is not type(m.svs):
                 failed.append(("sv_normalize_returns_the_charts_sv_class", f"{type(r).__name__} for {type(m.svs).__name__}"))
             got = sorted((Fraction(float(t)), float(x)) for t, x in zip(r.offset.tolist(), r.multiplier.tolist()))
@@ -201,28 +312,92 @@ def _run_case(case, observe=None):
             after = _freeze(m)
             k = next(k for k in before if before[k] != after[k])
             failed.append(("sv_normalize_leaves_chart_unchanged", f"list {k}: columns {before[k][0]} -> {after[k][0]}"))
-    return failed
+
+    steps = dict(d=dominant, s=scroll, n=normalize)
+    for letter in given.get("order", "dsn"):
+        steps[letter]()
+    seen, out = set(), []
+    for w, d in failed:
+        if w not in seen:
+            seen.add(w)
+            out.append((w, d))
+    return out
+
+
+def _run_case(case, observe=None):
+    return _judge(_build(case), case, observe)
 
 
 # ---------------------------------------------------------------------------------------------- generation
-def _random_case(rng, game):
+def _random_layout(rng, rows):
+    """How a list with these rows (already in the drawn row order) is put together; None = plain constructor."""
+    n = len(rows)
+    if n == 0:
+        return None
+    r = rng.random()
+    if r < 0.16:
+        return dict(via="sorted")
+    if r < 0.22:
+        return dict(via="sorted_reverse")
+    if r < 0.34 and n >= 2:
+        return dict(via="append_sorted")
+    if r < 0.42 and n >= 2:
+        return dict(via="append_list", split=rng.randrange(1, n), sort=rng.random() < 0.5)
+    if r < 0.60:
+        k = rng.choice([1, 1, 2, 3])
+        return dict(via="filter", junk_at=sorted(rng.sample(range(n + k), k)) if rng.random() < 0.5 else list(range(k)), by=rng.choice(["mask", "after"]))
+    q = rng.random()
+    if q < 0.3:
+        labels = rng.sample(range(n), n)                                  # permuted
+    elif q < 0.45:
+        labels = list(range(n - 1, -1, -1))                               # reversed
+    elif q < 0.6:
+        k = rng.randrange(1, 6)
+        labels = list(range(k, k + n))                                    # offset
+    elif q < 0.8:
+        labels = sorted(rng.sample(range(3 * n + 2), n))                  # gappy
+        if rng.random() < 0.5:
+            rng.shuffle(labels)
+    elif q < 0.9:
+        labels = [rng.randrange(max(1, n - 1)) for _ in range(n)]         # duplicated labels
+    else:
+        labels = [x - n for x in rng.sample(range(n + 2), n)]             # negative labels
+    return dict(via="labels", labels=labels)
+
+
+def _random_case(rng, game, plain=False):
+    """plain=True: the original scope only (sorted lists, default labels, floats, base time grid)."""
+    gname = "base" if plain else rng.choice(["base"] * 11 + ["negative"] * 2 + ["large"] * 2 + ["fraction"] * 2 + ["tight"] * 3)
+    grid = GRIDS[gname]
+    int_typed = (not plain) and gname in ("base", "negative", "large") and rng.random() < 0.2
+    if int_typed:
+        grid = [int(t) for t in grid[:7]] + [int(grid[7]) + 100]          # integral times, given as python ints
     k = rng.randrange(1, 5)
-    times = sorted(rng.sample(TIME_GRID[:6], k))
-    pool = rng.sample(BPMS, rng.randrange(1, min(k, 3) + 1))           # repeated bpm values
+    times = sorted(rng.sample(grid[:6], k))
+    values = list(BPMS)
+    if not plain and rng.random() < 0.12:
+        values += BPMS_FAR
+    if int_typed and rng.random() < 0.7:
+        values = [int(b) for b in values if float(b).is_integer()]        # an all-int bpm column
+    pool = rng.sample(values, rng.randrange(1, min(k, 3) + 1))           # repeated bpm values
     bpms = [[t, rng.choice(pool)] for t in times]
     t1 = times[0]
-    later = [t for t in TIME_GRID if t >= t1]
+    later = [t for t in grid if t >= t1]
     n_notes = rng.randrange(1, 4)
+    lengths = HOLD_LENGTHS if plain else HOLD_LENGTHS + [0.0]             # zero-length holds
+    if int_typed:
+        lengths = [int(x) for x in lengths]
     hits, holds = [], []
     for _ in range(n_notes):
         t = rng.choice(later)
         if rng.random() < 0.6:
             hits.append([t, rng.randrange(4)])
         else:
-            holds.append([t, rng.randrange(4), rng.choice([50.0, 2000.0])])    # long tails reach past everything else
+            holds.append([t, rng.randrange(4), rng.choice(lengths)])      # long tails reach past everything else
     hits.sort()
     holds.sort()
-    case = dict(game=game, bpms=bpms, hits=hits, holds=holds, override=rng.choice(OVERRIDES))
+    overrides = OVERRIDES if plain or rng.random() < 0.6 else OVERRIDES_MORE
+    case = dict(game=game, bpms=bpms, hits=hits, holds=holds, override=rng.choice(overrides))
     if game in SV_GAMES:
         svs = []
         for _ in range(rng.randrange(0, 5)):
@@ -231,17 +406,49 @@ def _random_case(rng, game):
                 t = rng.choice(times)                                   # coincides with a tempo point
             elif r < 0.45 and svs:
                 t = rng.choice(svs)[0]                                  # coincides with another SV
-            elif r < 0.55 and t1 > 0:
-                t = rng.choice([x for x in TIME_GRID if x < t1])        # before the first tempo point
+            elif r < 0.55 and t1 > grid[0]:
+                t = rng.choice([x for x in grid if x < t1])             # before the first tempo point
             else:
-                t = rng.choice(TIME_GRID)
+                t = rng.choice(grid)
             svs.append([t, rng.choice(MULTS)])
         svs.sort(key=lambda e: e[0])                                    # stable: ties keep their drawn order
         case["svs"] = svs
     else:
         case["svs"] = []
     if game == "sm":
-        case["stops"] = [[rng.choice(TIME_GRID), 25.0]] if rng.random() < 0.3 else []
+        case["stops"] = [[float(rng.choice(grid)), 25.0]] if rng.random() < 0.3 else []
+    if plain:
+        return case
+    # ---- how the lists are put together: row order and row labels, for every list kind on its own
+    layout = {}
+    for kind in KINDS:
+        rows = case[kind]
+        if not rows or rng.random() < 0.4:
+            continue
+        if rng.random() < 0.7:
+            rng.shuffle(rows)                                           # rows not in time order
+        lay = _random_layout(rng, rows)
+        if lay is not None and lay["via"] == "labels" and rng.random() < 0.3:
+            rows.sort(key=lambda e: e[0])                               # foreign labels on time-ordered rows
+        if lay is not None:
+            layout[kind] = lay
+    if layout:
+        case["layout"] = layout
+    if rng.random() < 0.1:
+        case["np_scalars"] = True
+    if case["override"] is not None and rng.random() < 0.2:
+        case["override_np"] = True
+    r = rng.random()
+    if r < 0.3:
+        case["call"] = "keyword"
+    elif r < 0.5:
+        case["call"] = "omitted"                                        # only differs from positional without an override
+    if rng.random() < 0.4:
+        order = rng.sample("dsn", 3)
+        if rng.random() < 0.25:
+            order.append(rng.choice("dsn"))                             # one of them a second time
+        case["order"] = "".join(order)
+    case["grid"] = gname + ("/int" if int_typed else "")
     return case
 
 
@@ -267,31 +474,65 @@ def _features(case):
         f.add("last_object_is_a_tempo_point")
     if len(tot) > 1:
         f.add("several_bpm_values")
+    # ---- the dimensions added for rows / labels / types / calls
+    for kind, lay in (case.get("layout") or {}).items():
+        f.add(f"{kind}_via_{lay['via']}")
+        if lay["via"] == "labels" and len(set(lay["labels"])) < len(lay["labels"]):
+            f.add(f"{kind}_duplicate_labels")
+    for kind in KINDS:
+        ts = [r[0] for r in case[kind]]
+        if ts != sorted(ts):
+            f.add(f"{kind}_rows_not_in_time_order")
+    if not case["hits"]:
+        f.add("no_hits")
+    if not case["holds"]:
+        f.add("no_holds")
+    if any(ln == 0 for _, _, ln in case["holds"]):
+        f.add("zero_length_hold")
+    if min(bt) == min([r[0] for r in case["hits"]] + [r[0] for r in case["holds"]]):
+        f.add("first_object_on_first_tempo_point")
+    if any(b in BPMS_FAR for _, b in case["bpms"]):
+        f.add("far_bpm")
+    if case.get("grid", "base") != "base":
+        f.add("grid_" + case["grid"])
+    for k in ("np_scalars", "override_np"):
+        if case.get(k):
+            f.add(k)
+    if case.get("call"):
+        f.add("call_" + case["call"])
+    if case.get("order"):
+        f.add("calls_reordered" if len(case["order"]) == 3 else "a_call_repeated")
+    if case["override"] in OVERRIDES_MORE:
+        f.add("override_far")
     return f
 
 
-@bounded("C19", note="real dominant_bpm / scroll_speed / sv_normalize on small sorted charts (1-4 tempo points, 0-4 SVs incl. coincident and early ones, overrides) against exact rational oracles from the statement")
+@bounded("C19", note="real dominant_bpm / scroll_speed / sv_normalize on small charts (1-4 tempo points, 0-4 SVs incl. coincident and early ones, overrides; lists in any row order, with any row labels, int / float / numpy typed, on five time scales) against exact rational oracles from the statement")
 def tempo_analysis_vs_definitions(rep):
     rng = rep.rng
     N = rep.n(1000, 30000)
-    rep.bound = (f"up to {N} seeded charts with sorted lists: 1..4 tempo points at distinct times of {TIME_GRID[:6]} with bpm values drawn from 1..3 of {BPMS} (repeats, ties), "
-                 f"1..3 notes (hits and holds, tails up to 2000 ms) at or after the first tempo point on {TIME_GRID}, override in {OVERRIDES}; "
+    rep.bound = (f"up to {N} seeded charts: 1..4 tempo points at distinct times of the first 6 grid times with bpm values drawn from 1..3 of {BPMS} (repeats, ties; 12%: also {BPMS_FAR}), "
+                 f"1..3 notes (hits and holds, lengths {HOLD_LENGTHS + [0.0]}) at or after the first tempo point, override in {OVERRIDES} (60%) or {OVERRIDES_MORE}, 20% as numpy scalar, passed positionally / by keyword / omitted; "
                  f"osu and quaver (2/3 of the cases): 0..4 SVs with multipliers {MULTS}, 30% on a tempo point, 15% on another SV, 10% before the first tempo point; "
-                 "sm (30% with a stop), bms, o2j, base Map: dominant_bpm and scroll_speed without SVs")
-    rep.rule = "a case is one (game, tempo points, SVs, notes, override); non-trivial when it has >= 2 tempo points or >= 1 SV"
+                 "sm (30% with a stop), bms, o2j, base Map: dominant_bpm and scroll_speed without SVs. "
+                 f"One case in 4 keeps the original scope (time-ordered lists, default labels, floats, grid {TIME_GRID}); in the others: time grid base / negative (-450..550) / large (+1 h) / "
+                 "fraction (x.5, x.999, 1/16 ms) / tight (0.25 ms steps), 20% of the integral grids int-typed (python ints, all-int bpm column), 10% numpy scalars; EACH of the four lists (tempo, SV, hits, holds) "
+                 "independently in 60%: rows shuffled (70%) and built by .sorted() / .sorted(reverse=True) / append(item, sort=True) / append(list) / a filter (boolean mask or after()) that removes 1..3 interleaved rows / "
+                 "from a DataFrame with permuted, reversed, offset, gappy, duplicated or negative row labels; 40%: the three functions in another order, 10% with one of them called twice")
+    rep.rule = "a case is one (game, tempo points, SVs, notes, override, construction of each list, call form and order); non-trivial when it has >= 2 tempo points or >= 1 SV"
     order = ["osu", "qua", "osu", "qua", "sm", "bms", "osu", "qua", "o2j", "base", "osu", "qua"]
     feats = Counter()
     obs = Counter()
     for i in range(N):
         if rep.out_of_time(22, 300):
             break
-        case = _random_case(rng, order[i % len(order)])
+        case = _random_case(rng, order[i % len(order)], plain=(i % 4 == 3))
         rep.case(case, nontrivial=(len(case["bpms"]) >= 2 or len(case["svs"]) >= 1))
         for f in _features(case):
             feats[f] += 1
         for what, d in _run_case(case, obs):
             rep.fail(what, case, d)
-    rep.extra["feature_counts"] = dict(feats)
+    rep.extra["feature_counts"] = dict(sorted(feats.items()))
     rep.extra["sv_normalize_changed_its_argument"] = obs["sv_normalize_changed_its_argument"]
     rep.extra["assert_input_unchanged"] = ASSERT_INPUT_UNCHANGED
 
@@ -299,5 +540,102 @@ def tempo_analysis_vs_definitions(rep):
 @replayer("tempo_analysis_vs_definitions")
 def _replay(case, what):
     failed = _run_case(case)
+    hit = [d for w, d in failed if w == what]
+    return (bool(hit), hit[0] if hit else "passes")
+
+
+# ---------------------------------------------------------------------------------------------- histories
+def _run_history(case, observe=None):
+    """Two charts alive at once; each step judges one of them (possibly with another override, after re-sorting one of
+    its lists, after appending the normalising SVs to it) against the statement for the chart AS IT IS THEN."""
+    from reamber.algorithms.generate import sv_normalize
+
+    maps = dict(a=_build(case["a"]), b=_build(case["b"]))
+    cur = dict(a=dict(case["a"]), b=dict(case["b"]))
+    failed = []
+    for i, st in enumerate(case["steps"]):
+        on = st["on"]
+        m, c = maps[on], dict(cur[on])
+        if "override" in st:
+            c["override"] = st["override"]
+            c.pop("override_np", None)
+        if "call" in st:
+            c["call"] = st["call"]
+        if "order" in st:
+            c["order"] = st["order"]
+        if st.get("resort"):                                          # a list of the chart replaced by a re-sorted one
+            kind, rev = st["resort"]
+            if kind != "svs" or c["game"] in SV_GAMES:
+                setattr(m, kind, getattr(m, kind).sorted(reverse=rev))
+        if st.get("append_norm") and c["game"] in SV_GAMES:           # the documented use: svs = svs.append(sv_normalize(m))
+            try:
+                m.svs = m.svs.append(_call(sv_normalize, m, c), sort=bool(st.get("sort")))
+            except Exception as ex:
+                failed.append(("sv_normalize_completes", f"step {i}: {type(ex).__name__}: {ex}"))
+                continue
+        cur[on] = c
+        for w, d in _judge(m, c, observe, sanity=False):
+            failed.append((w, f"step {i} on chart {on}: {d}"))
+    seen, out = set(), []
+    for w, d in failed:
+        if w not in seen:
+            seen.add(w)
+            out.append((w, d))
+    return out
+
+
+def _random_history(rng):
+    games = ["osu", "qua", "osu", "qua", "sm", "base", "bms", "o2j"]
+    a = _random_case(rng, rng.choice(games[:4]), plain=rng.random() < 0.3)
+    b = _random_case(rng, rng.choice(games), plain=rng.random() < 0.3)
+    for c in (a, b):
+        c.pop("order", None)
+    steps = [dict(on="a"), dict(on="b")]
+    for _ in range(rng.randrange(2, 5)):
+        st = dict(on=rng.choice("aab"))
+        r = rng.random()
+        if r < 0.4:
+            st["override"] = rng.choice(OVERRIDES + OVERRIDES_MORE)
+            st["call"] = rng.choice(["positional", "keyword", "omitted"])
+        elif r < 0.65:
+            st["append_norm"] = True
+            st["sort"] = rng.random() < 0.5
+        elif r < 0.85:
+            st["resort"] = [rng.choice(KINDS), rng.random() < 0.5]
+        else:
+            st["order"] = "".join(rng.sample("dsn", 3))
+        steps.append(st)
+    return dict(a=a, b=b, steps=steps)
+
+
+@bounded("C19", note="histories: two charts alive at once, the three functions called on them alternately with changing overrides, after re-sorting a list and after appending the normalising SVs to the chart; every step judged by the same oracles on the chart as it is then")
+def tempo_analysis_histories(rep):
+    rng = rep.rng
+    N = rep.n(220, 6000)
+    rep.bound = (f"up to {N} seeded histories over two charts drawn as in tempo_analysis_vs_definitions (chart a osu / quaver, chart b any game): both built first, then 4..6 steps; "
+                 "a step judges chart a or b as it is, or first changes the override (any of " + f"{OVERRIDES + OVERRIDES_MORE}" + ", any call form), re-sorts one of its lists (either direction), "
+                 "permutes the call order, or appends sv_normalize(chart) to the chart's SVs (sorted or not)")
+    rep.rule = "a case is one (chart a, chart b, steps); all have two charts and >= 4 judged steps; non-trivial when a step changes a chart or its override"
+    obs = Counter()
+    kinds = Counter()
+    for _ in range(N):
+        if rep.out_of_time(20, 300):
+            break
+        case = _random_history(rng)
+        rep.case(case, nontrivial=any(len(s) > 1 for s in case["steps"]))
+        for s in case["steps"]:
+            kinds["judged_steps"] += 1
+            for k in ("override", "append_norm", "resort", "order"):
+                if k in s:
+                    kinds["steps_with_" + k] += 1
+        for what, d in _run_history(case, obs):
+            rep.fail(what, case, d)
+    rep.extra["step_counts"] = dict(kinds)
+    rep.extra["sv_normalize_changed_its_argument"] = obs["sv_normalize_changed_its_argument"]
+
+
+@replayer("tempo_analysis_histories")
+def _replay_history(case, what):
+    failed = _run_history(case)
     hit = [d for w, d in failed if w == what]
     return (bool(hit), hit[0] if hit else "passes")
